@@ -277,7 +277,7 @@ class SpecTerminal:
                     if keys.get("m", "0") == "0":
                         self._complete(now)
                 else:
-                    path = payload.decode()
+                    path = os.fsdecode(bytes(payload))      # file names are bytes; not all are UTF-8
                     try:
                         content = open(path, "rb").read()
                     except OSError:
@@ -585,21 +585,30 @@ class DisplayK:
 # ---------------------------------------------------------------------------------------------
 # scenario execution
 # ---------------------------------------------------------------------------------------------
+# file names as a caller may meet them: spaces and shell/format metacharacters, a leading dash, non-ASCII UTF-8, a line break,
+# and names that are NOT valid UTF-8 (Python shows the odd bytes as lone surrogates)
+ODD_NAMES = [" sp ace %d 'q' \"w\"", "-dash", "caf\u00e9 \u00fc", "\u65e5\u672c\u8a9e", "a;b=c,d", "line\nbreak", "caf\udce9", "\udcff\udcfe x", "e\u0301 nfd"]
+
+
 def _make_pool(td, spec):
     """image pool: list of dict(kind, path|None, image|None)"""
     from PIL import Image
     pool = []
-    for i, (kind, w, h, seed) in enumerate(spec):
+    for i, (kind, w, h, seed, *name) in enumerate(spec):
         img = U.noise_image(w, h, seed, "RGBA" if kind.endswith("rgba") else "RGB")
         if kind.startswith("mem"):
             pool.append(dict(kind=kind, image=img, path=None))
         elif kind == "png":
-            p = os.path.join(td, f"img{i}.png")
-            img.save(p, format="PNG")
+            # an optional 5th element is the file's base name (str as Python sees file names: bytes that are not UTF-8 appear
+            # as lone surrogates); the index keeps names distinct
+            p = os.path.join(td, f"{i}{name[0]}.png" if name else f"img{i}.png")
+            with open(p, "wb") as f:
+                img.save(f, format="PNG")
             pool.append(dict(kind=kind, image=None, path=p))
         elif kind == "jpeg":
-            p = os.path.join(td, f"img{i}.jpg")
-            img.save(p, format="JPEG")
+            p = os.path.join(td, f"{i}{name[0]}.jpg" if name else f"img{i}.jpg")
+            with open(p, "wb") as f:
+                img.save(f, format="JPEG")
             pool.append(dict(kind=kind, image=None, path=p))
         elif kind.startswith("rel"):
             # different files under the SAME relative name in different directories, with equal mtime: requested by
@@ -669,7 +678,7 @@ def check_case(ctx: Ctx, c: dict):
             kd.note_transmit(spec.name, keys)
             ctx.count("medium:" + medium)
             if medium in ("f", "t"):
-                path = payload.decode()
+                path = os.fsdecode(bytes(payload))      # file names are bytes; not all are UTF-8
                 if not _rf(cur_req[0]):
                     ctx.violation("file medium used although the resolved upload method is inline", c,
                                   {"keys": keys, "path": path, "ssh": bool(c.get("ssh")), "method": (cur_req[0] or {}).get("upload_method") or method_cfg},
@@ -849,6 +858,12 @@ def check_case(ctx: Ctx, c: dict):
                 ctx.count("exc:RuntimeError")
                 sync(ti, req)
                 _k_raised(kd, kr, ti, req, acc)
+            except UnicodeEncodeError:
+                # a file name that is not UTF-8 cannot be announced by name: the library refuses; nothing may be printed (F, in sync);
+                # the display model does not know file names, so K stops here
+                ctx.count("exc:UnicodeEncodeError")
+                sync(ti, req)
+                kd.give_up("file-name-not-utf8")
         kd.finish()
         for T in terms:
             T["t"].id_manager.close()
@@ -1066,10 +1081,13 @@ def cases(ctx: Ctx):
         if rng.random() < 0.15:
             for dj in range(rng.choice([2, 3])):
                 pool.append([f"rel{dj}", 8, 8, rng.randrange(1 << 30)])
+        odd = rng.random() < 0.15
         for j in range(rng.randrange(2, 7)):
             kind = rng.choice(["png", "png", "jpeg", "mem-rgb", "mem-rgba"])
             w, h = rng.choice([(8, 8), (12, 5), (30, 30), (5, 17), (40, 25)])
             pool.append([kind, w, h, rng.randrange(1 << 30)])
+            if odd and kind in ("png", "jpeg"):
+                pool[-1].append(rng.choice(ODD_NAMES))
         reqs = []
         names = []
         for j in range(rng.randrange(3, 14 if ctx.quick else 30)):
